@@ -51,6 +51,18 @@ class SWWorld(object):
               max_buffers=cfg.get("max_buffers", 100),
               max_entries=cfg.get("max_entries", 0x7fffffff),
               expire_period=cfg.get("expire_period", 2))
+    if cfg.get("actions_off"):
+      # a switch built without some of the actions pox implements (the
+      # documented features= argument); everything else as the default
+      from pox.datapaths.switch import SwitchFeatures
+      ft = SwitchFeatures()
+      ft.cap_flow_stats = ft.cap_table_stats = ft.cap_port_stats = True
+      for a in ("output", "enqueue", "strip_vlan", "set_vlan_vid",
+                "set_vlan_pcp", "set_dl_dst", "set_dl_src", "set_nw_dst",
+                "set_nw_src", "set_nw_tos", "set_tp_dst", "set_tp_src"):
+        setattr(ft, "act_" + a, a not in cfg["actions_off"])
+      kw["features"] = ft
+      sim.probes["switch_without_some_actions"] += 1
     self.switch = ExpiringSwitch(**kw)
     if self.on_switch is not None:
       self.on_switch(self.switch)
